@@ -44,13 +44,15 @@ type Gen struct {
 	ing map[string]IngressSpec
 	svc map[string]bool
 	sec map[string]int
+	secChain map[string]int // chain variant of the last version of a secret (see ChainStep)
+	secKind  map[string]string
 	shared int
 	cls map[string]string
 	ts  int
 }
 
 func NewGen(r *gen.Rng, c GenConfig) *Gen {
-	return &Gen{R: r, C: c, ing: map[string]IngressSpec{}, svc: map[string]bool{}, sec: map[string]int{}, cls: map[string]string{}}
+	return &Gen{R: r, C: c, ing: map[string]IngressSpec{}, svc: map[string]bool{}, sec: map[string]int{}, secChain: map[string]int{}, secKind: map[string]string{}, cls: map[string]string{}}
 }
 
 const OurController = "haproxy-ingress.github.io/controller"
@@ -93,12 +95,18 @@ func (g *Gen) secOp(ns, name string) string {
 	if g.sec[key] > 0 {
 		act = "~"
 	}
+	if act == "~" && g.secKind[key] == "tls" && g.secChain[key] < 9 && g.R.Chance(1, 4) {
+		// the same leaf and key with another intermediate chain (see ChainStep)
+		g.secChain[key]++
+		return fmt.Sprintf("sec~%s!tls!%d!%s", key, g.sec[key]+ChainStep*g.secChain[key], "a.local+b.local")
+	}
 	g.sec[key]++
 	kind := "tls"
 	if g.R.Chance(1, 12) {
 		kind = "bad"
 	}
-	return fmt.Sprintf("sec%s%s!%s!%d!%s", act, key, kind, g.sec[key], "a.local+b.local")
+	g.secKind[key] = kind
+	return fmt.Sprintf("sec%s%s!%s!%d!%s", act, key, kind, g.sec[key]+ChainStep*g.secChain[key], "a.local+b.local")
 }
 
 func (g *Gen) randomIngress(ns, name string, keep *IngressSpec) IngressSpec {
@@ -224,6 +232,8 @@ func (g *Gen) randomIngress(ns, name string, keep *IngressSpec) IngressSpec {
 				s.Annotations["session-cookie-preserve"] = "true"
 				s.Annotations["session-cookie-value-strategy"] = gen.Pick(r, []string{"pod-uid", "server-name"})
 			}
+		case 13:
+			createTimeAnnotations(r, &s)
 		}
 	}
 	return s
@@ -417,3 +427,20 @@ func (g *Gen) ChurnOp() string {
 	}
 	return g.epOp(ns, gen.Pick(r, g.C.Services))
 }
+
+// createTimeAnnotations: the three backend settings that addBackendWithClass reads only when the backend object is
+// CREATED, from whoever creates it first (service-upstream, initial-weight, backend-server-naming): the result
+// depends on the order in which the declarations of a backend are processed (seed C06d).
+func createTimeAnnotations(r *gen.Rng, s *IngressSpec) {
+	switch r.Intn(3) {
+	case 0:
+		s.Annotations["service-upstream"] = "true"
+	case 1:
+		s.Annotations["initial-weight"] = gen.Pick(r, []string{"50", "100"})
+	case 2:
+		s.Annotations["backend-server-naming"] = gen.Pick(r, []string{"ip", "pod"})
+	}
+}
+
+// CreateTimeAnnotations is createTimeAnnotations for generators outside this package.
+func CreateTimeAnnotations(r *gen.Rng, s *IngressSpec) { createTimeAnnotations(r, s) }
